@@ -77,6 +77,8 @@ CENSUS['C12'].extend(['LightClientProtocol::check_verifiable_header', '<Verifiab
                       '<VerifiableHeader as VerifiableHeaderPatch>::checked_total_difficulty'])
 HANDLERS['C16'] = [HANDLERS['C02'][0], HANDLERS['C02'][1], '!LightClientProtocol::fetch_headers_txs@^Peers::(fetching_idle_txs|fetching_idle_headers|update_blocks_proof_request|update_txs_proof_request)$']
 CENSUS['C16'].extend(HANDLERS['C16'])
+# a fetch is released when its serving peer times out: the timeout scan is a necessary condition of C16 too (seeded C16-5)
+CENSUS['C16'].append('~Peers::get_peers_which_have_timeout')
 CENSUS['C16'].extend(['strict_merkle_proof_root', '~TransactionsProofRequest::check_tx_hashes', '~BlocksProofRequest::check_block_hashes'])
 HANDLERS['C09'] = [HANDLERS['C02'][2], HANDLERS['C06'][0]]
 HANDLERS['C08'] = [HANDLERS['C12'][1], HANDLERS['C02'][2], HANDLERS['C06'][0], HANDLERS['C07'][0]]
